@@ -2603,3 +2603,224 @@ func sharedInitialRefresh(c *an.Ctx, rule string) (initials int) {
 	}
 	return initials
 }
+
+// refreshWorkerRules checks the periodic worker that drives every refresher
+// (rule-list storage, hash-prefix filters, profile database, billing upload,
+// GeoIP, allowlist): the loop ends only through the shutdown channel (never
+// because a refresh failed or a tick was skipped), every tick that is not
+// interrupted by shutdown calls the refresher, the refresher's error is not
+// used to leave the loop, the shutdown refresh happens exactly when requested
+// and before the loop is told to stop, and the constructor takes every setting
+// from its own configuration field.
+func refreshWorkerRules(c *an.Ctx, rule string) {
+	const w = "agdservice.(*RefreshWorker)."
+	// ---- the loop
+	if fn := c.Fn(w + "refreshInALoop"); fn == nil {
+		c.Und(rule, w+"refreshInALoop", token.NoPos, "anchor not found")
+	} else {
+		c.Analysed(w + "refreshInALoop")
+		key := w + "refreshInALoop ends only on shutdown"
+		var sel *ssa.Select
+		an.Instrs(fn, func(in ssa.Instruction) {
+			if s, ok := in.(*ssa.Select); ok {
+				sel = s
+			}
+		})
+		loops := naturalLoops(fn)
+		switch {
+		case sel == nil || len(loops) == 0:
+			c.Und(rule, key, fn.Pos(), "no select inside a loop found")
+		default:
+			inLoop := false
+			for _, l := range loops {
+				if l.blocks[sel.Block()] {
+					inLoop = true
+				}
+			}
+			// which select state receives from the done channel
+			doneState := -1
+			for i, st := range sel.States {
+				if ap, ok := an.AccessPath(st.Chan); ok && strings.HasSuffix(ap, ".done") {
+					doneState = i
+				}
+			}
+			bad := ""
+			if !inLoop || doneState < 0 || !sel.Blocking {
+				bad = "the select is not a blocking wait on the shutdown channel inside the loop"
+			}
+			// every return is dominated by "index == doneState"
+			for _, r := range an.Returns(fn) {
+				ok := r.Block() == fn.Recover // the exit taken after a recovered panic
+				for _, e := range an.DominatingConds(r.Block()) {
+					if bo, isBo := e.If.Cond.(*ssa.BinOp); isBo && bo.Op == token.EQL && e.Branch {
+						if ex, isEx := bo.X.(*ssa.Extract); isEx && ex.Tuple == ssa.Value(sel) && ex.Index == 0 {
+							if k, isK := an.ConstInt(bo.Y); isK && int(k) == doneState {
+								ok = true
+							}
+						}
+					}
+				}
+				if !ok {
+					bad = "the loop can be left on a path other than the shutdown case"
+				}
+			}
+			// the refresh is reached from the tick case
+			var refreshes []ssa.CallInstruction
+			for _, call := range an.Calls(fn) {
+				if strings.HasSuffix(an.CalleeName(call), "agdservice.RefreshWorker).refresh") {
+					refreshes = append(refreshes, call)
+				}
+			}
+			if len(refreshes) == 0 {
+				bad = "the tick case does not call refresh"
+			}
+			for _, call := range refreshes {
+				inL := false
+				for _, l := range loops {
+					if l.blocks[call.Block()] {
+						inL = true
+					}
+				}
+				if !inL {
+					bad = "refresh is called outside the loop"
+				}
+				// the only condition between the tick and the refresh is sleepRandom's verdict
+				for _, e := range an.DominatingConds(call.Block()) {
+					switch cond := e.If.Cond.(type) {
+					case *ssa.BinOp:
+						if ex, isEx := cond.X.(*ssa.Extract); isEx && ex.Tuple == ssa.Value(sel) {
+							continue
+						}
+						bad = "refresh is skipped on a condition other than the interrupted start sleep"
+					case *ssa.Call:
+						if !strings.HasSuffix(an.CalleeName(cond), ").sleepRandom") || !e.Branch {
+							bad = "refresh is skipped on a condition other than the interrupted start sleep"
+						}
+					default:
+						bad = "refresh is skipped on a condition other than the interrupted start sleep"
+					}
+				}
+			}
+			c.Check(bad == "", rule, key, fn.Pos(), "the periodic loop only ends on shutdown and refreshes on every uninterrupted tick", bad)
+		}
+	}
+	// ---- one refresh: the error is dropped, not acted upon
+	if fn := c.Fn(w + "refresh"); fn == nil {
+		c.Und(rule, w+"refresh", token.NoPos, "anchor not found")
+	} else {
+		c.Analysed(w + "refresh")
+		n := 0
+		bad := ""
+		for _, call := range an.Calls(fn) {
+			if call.Common().IsInvoke() && call.Common().Method.Name() == "Refresh" {
+				n++
+				if ap, _ := an.AccessPath(call.Common().Value); !strings.HasSuffix(ap, ".refr") {
+					bad = "refreshes " + ap + " instead of the configured refresher"
+				}
+				if v := call.Value(); v != nil && v.Referrers() != nil {
+					for _, r := range *v.Referrers() {
+						switch r.(type) {
+						case *ssa.If, *ssa.Panic:
+							bad = "the refresher's error decides control flow"
+						}
+					}
+				}
+			}
+			if _, isPanic := call.(*ssa.Go); isPanic {
+				bad = "the refresh is started asynchronously (overlapping refreshes)"
+			}
+		}
+		for _, b := range fn.Blocks {
+			if _, ok := b.Instrs[len(b.Instrs)-1].(*ssa.Panic); ok && b.Comment != "recover" {
+				bad = "a failed refresh panics"
+			}
+		}
+		c.Check(n == 1 && bad == "", rule, w+"refresh calls the refresher once and survives its error", fn.Pos(),
+			"one synchronous Refresh of the configured refresher; its error does not affect the worker", fmt.Sprintf("%d Refresh calls; %s", n, bad))
+	}
+	// ---- shutdown
+	decide(c, rule, w+"Shutdown", an.DecideCfg{
+		Dom: an.Domain{"p0.refrOnShutdown": an.Bools, "referr": an.Bools},
+		OnCall: func(it *an.Interp, name string, args []an.AV) (an.AV, bool) {
+			switch {
+			case name == "p0.refr.Refresh":
+				if it.Feature("referr").IsTrue() {
+					return an.NonNil("refErr"), true
+				}
+				return an.Nil(), true
+			case name == "fmt.Errorf":
+				return an.NonNil("wrapped"), true
+			case strings.HasSuffix(name, "slogutil.ContextWithLogger"):
+				return args[0], true
+			}
+			return an.AV{}, false
+		},
+		Expect: func(f an.Features, o an.AOutcome) string {
+			ri, ci, ti := -1, -1, -1
+			for i, e := range o.Effects {
+				if e.Kind != "call" {
+					continue
+				}
+				switch {
+				case e.Name == "p0.refr.Refresh":
+					ri = i
+				case e.Name == "builtin.close" && len(e.Args) == 1 && strings.HasSuffix(e.Args[0], "p0.done"):
+					ci = i
+				case strings.HasSuffix(e.Name, "time.Ticker).Stop"):
+					ti = i
+				}
+			}
+			if ci < 0 || ti < 0 {
+				return "the loop is told to stop (close(done)) and the ticker stopped on every path"
+			}
+			if f.B("p0.refrOnShutdown") != (ri >= 0) {
+				return "a final refresh exactly when RefreshOnShutdown is set"
+			}
+			if ri >= 0 && ri > ci {
+				return "the final refresh before the worker is stopped"
+			}
+			wantErr := f.B("p0.refrOnShutdown") && f.B("referr")
+			if len(o.Ret) != 1 || wantErr != (o.Ret[0].Kind != an.KNil) {
+				return fmt.Sprintf("error returned=%v; got %s", wantErr, o.RetString())
+			}
+			return ""
+		},
+	})
+	checkFieldMap(c, rule, "agdservice.NewRefreshWorker", "agdservice.RefreshWorker", map[string]string{
+		"logger": ".Logger", "context": ".Context", "refr": ".Refresher", "refrOnShutdown": ".RefreshOnShutdown"})
+	// the wrapper that reports errors still returns them and refreshes the wrapped refresher
+	decide(c, rule, "agdservice.(*RefresherWithErrColl).Refresh", an.DecideCfg{
+		Dom: an.Domain{"referr": an.Bools},
+		OnCall: func(it *an.Interp, name string, args []an.AV) (an.AV, bool) {
+			switch {
+			case name == "p0.refr.Refresh":
+				if args[0].String() != "p1" {
+					return an.Sym("refresh with another context"), true
+				}
+				if it.Feature("referr").IsTrue() {
+					return an.NonNil("refErr"), true
+				}
+				return an.Nil(), true
+			case strings.HasSuffix(name, "errcoll.Collect"):
+				return an.Nil(), true
+			}
+			return an.AV{}, false
+		},
+		Expect: func(f an.Features, o an.AOutcome) string {
+			if !o.HasCall("p0.refr.Refresh") {
+				return "the wrapped refresher is refreshed"
+			}
+			if f.B("referr") != o.HasCall("errcoll.Collect") {
+				return "the error is reported exactly when there is one"
+			}
+			want := "nil"
+			if f.B("referr") {
+				want = "nonnil:refErr"
+			}
+			if o.RetString() != want {
+				return "the refresher's own error is returned; got " + o.RetString()
+			}
+			return ""
+		},
+	})
+}
